@@ -1462,6 +1462,9 @@ let suite_race t v =
          if final <> logged || not (final = f "h1" || final = f "h2") then oracle v "delivered_content_not_validated" false;
          if p2 = "1" && final = f "wire2" then oracle v "delivered_content_not_validated" false
        end
+   | "ready" ->
+       (* received = 0: the recovered file is still waiting for / under validation *)
+       if fi "began" = 1 && (fi "full_at_ready" = 1 || fi "state_at_ready" = 0) then oracle v "ready_before_recovery_finished" false
    | "storm" ->
        if fi "bad_content" > 0 || fi "bad_log_hash" > 0 then oracle v "delivered_content_not_validated" false;
        if fi "logged_twice" > 0 then oracle v "logged_twice" false;
